@@ -69,6 +69,34 @@ def correspondence(ck, bindir, model, cases, label="tokenizer"):
     return bad
 
 
+def reference_leg(ck, model, cases):
+    """ties the reference semantics of Props/C03.v / C15.v (flat queue, unit runs) to the chunked-queue interpreter
+    that runs against the Rust code: same observation up to merging of adjacent character tokens (errors and line
+    numbers included); and, as a sanity check of the proved theorem on its executable form, the reference semantics
+    gives literally the same tokens for the whole input and for the chunked input"""
+    if model is None:
+        return 0
+    a = ck.run_lines(model, [T.ENT_FILE], cases)
+    b = ck.run_lines(model, [T.ENT_FILE, "flat"], cases)
+    whole = [T.rechunk(c, ["".join(T.case_text(c))]) for c in cases]
+    w = ck.run_lines(model, [T.ENT_FILE, "flat"], whole)
+    bad = 0
+    for c, x, y, z in zip(cases, a, b, w):
+        if T.obs(x, keep_log=False) != T.obs(y, keep_log=False):
+            bad += 1
+            if bad <= 3:
+                ck.broken.append("reference (flat-queue) semantics vs chunked-queue interpreter differ beyond token merging: %s\n chunked  : %s\n reference: %s"
+                                 % (json.dumps(T.describe(c), ensure_ascii=True), x[:500], y[:500]))
+        elif y.rpartition(" # ")[0] != z.rpartition(" # ")[0]:
+            bad += 1
+            if bad <= 3:
+                ck.broken.append("reference semantics depends on chunking (contradicts the proved theorem's executable form): %s"
+                                 % json.dumps(T.describe(c), ensure_ascii=True))
+    ck.cov["reference_semantics_cases"] = ck.cov.get("reference_semantics_cases", 0) + len(cases)
+    ck.cov["reference_semantics_disagreements"] = ck.cov.get("reference_semantics_disagreements", 0) + bad
+    return bad
+
+
 def tree_run(ck, bindir, cases):
     return ck.run_lines(os.path.join(bindir, "tree"), [], cases)
 
